@@ -24,6 +24,18 @@ from .model import AnalysisError, node_src
 
 ORD, ASYNC = "ORD", "ASYNC"
 MAX_STATES = 60000
+# wall-clock budget of one process (one check): a fixpoint that does not converge in reasonable time is an analysis
+# failure (exit 2), not a hang.  Generous: the slowest check takes about 10 s on the unchanged tree.
+import os as _os
+import time as _time
+
+BUDGET_SECONDS = float(_os.environ.get("PMCSA_BUDGET_SECONDS", "600"))
+_T0 = _time.time()
+
+
+def _check_budget(where):
+    if _time.time() - _T0 > BUDGET_SECONDS:
+        raise AnalysisError("analysis budget of %d s exceeded in %s: a fixpoint does not converge on this code" % (BUDGET_SECONDS, where))
 NOVALUE = object()  # subscript_load: the lookup surely raises
 
 
@@ -82,6 +94,11 @@ class FuncRef(namedtuple("FuncRef", "name")):
     __slots__ = ()
 
 
+class MaybeV(namedtuple("MaybeV", "v why")):
+    """An element of a comprehension whose filter is undecided: present or not; why = source text of the filter."""
+
+    def __new__(cls, v, why=""):
+        return super().__new__(cls, v, why)
 SliceV = namedtuple("SliceV", "lo hi step")  # the bounds of a slice, for domains with slice_values = True
 
 
@@ -329,11 +346,19 @@ class Domain:
             return None
         if getattr(finfo, "_is_generator", None) is None:
             finfo._is_generator = any(isinstance(n, (ast.Yield, ast.YieldFrom)) for n in ast.walk(finfo.node) if n is not finfo.node and not isinstance(n, (ast.FunctionDef, ast.Lambda))) and not any("contextmanager" in d for d in getattr(finfo, "decorators", ()))
+        collect = None
         if finfo._is_generator:
-            return None  # calling a generator function runs none of its body: the result is an iterator this engine does not model
+            if not getattr(self, "eager_generators", False):
+                return None  # calling a generator function runs none of its body: the result is an iterator this domain does not model
+            # exact-collection domains: the body is interpreted at the call and what it yields is collected into a
+            # one-shot iterator value (as for a generator expression: the effects of the body happen at creation, not
+            # interleaved with the consumer)
+            collect = ("#yields", self._depth + 1)
         bound = self.bind_params(finfo, args, kwargs)
         env = {k: v for k, v in state.d.items() if self.is_global_key(k)}
         env.update(bound)
+        if collect is not None:
+            env[collect] = ()
         self._depth += 1
         self.frames.append({"fn": finfo, "site": node, "bound": bound})
         saved = self.fn
@@ -350,6 +375,10 @@ class Domain:
             for s, v, t in outs.of(kind):
                 md = dict(locals_)
                 md.update({k: v2 for k, v2 in s.d.items() if self.is_global_key(k)})
+                if collect is not None:
+                    ys = md.pop(collect, ())
+                    if kind == "ret":
+                        v = self.generator_value(node, ys, finfo)
                 merged = Env(md)
                 val = v if _hashable(v) else TOP
                 key = (kind, val, merged)
@@ -951,6 +980,8 @@ class Interp:
             seen[s] = t
             if len(seen) > MAX_STATES:
                 raise AnalysisError("state explosion in while loop at line %d" % st.lineno)
+            if len(seen) % 256 == 0:
+                _check_budget("the while loop at line %d" % st.lineno)
             ts, fs, excs = self.cond(st.test, s, ctx)
             self._emit_excs(o, excs, t)
             for s1 in fs:
@@ -986,6 +1017,8 @@ class Interp:
                 seen[s] = t
                 if len(seen) > MAX_STATES:
                     raise AnalysisError("state explosion in for loop at line %d" % st.lineno)
+                if len(seen) % 256 == 0:
+                    _check_budget("the for loop at line %d" % st.lineno)
                 ex = self.dom.for_exhausted(st, itval, s)
                 if ex is not None:
                     exits.setdefault(ex, _tr(t, "for@%d:exhausted" % st.lineno))
@@ -1530,16 +1563,24 @@ class Interp:
                         excs.extend(e2)
                         for s3 in o2:
                             passing = [s3]
+                            skipped = []
                             for c in g.ifs:
                                 n2 = []
                                 for s4 in passing:
                                     ts, fs, e3 = self.cond(c, s4, ctx)
                                     excs.extend(e3)
                                     n2 += ts
-                                    nxt += [(a, s5) for s5 in fs]
+                                    skipped += fs
                                 passing = n2
+                            taken = []
                             for s4 in passing:
-                                nxt += produce(gi + 1, s4, a)
+                                taken += produce(gi + 1, s4, a)
+                            if gi == len(gens) - 1 and len(taken) == 1 and len(skipped) == 1 and taken[0][1] == skipped[0] and len(taken[0][0]) == len(a) + 1:
+                                # a filter that is undecided and leaves no trace in the state: one path with the element
+                                # marked "present or not" instead of two paths (n such elements would make 2**n paths)
+                                nxt.append((a + (MaybeV(taken[0][0][-1], " and ".join(ast.unparse(c) for c in g.ifs)),), skipped[0]))
+                            else:
+                                nxt += taken + [(a, s5) for s5 in skipped]
                     cur = nxt
                     if len(cur) > 256:
                         raise _Unknown()
